@@ -1118,6 +1118,7 @@ func TestC08(t *testing.T) {
 		r.fundc(110, 2, 50)
 		if seq == nSeq {
 			// dedicated last sequence: mixed transactions leave the token's books broken when the defect is present
+			r.feeOnTransfer()
 			r.mixed(nMix)
 			continue
 		}
